@@ -92,9 +92,15 @@ class Collector:
         k = d["k"]
         head = f'ID="{d["id"]}"><SHORT-NAME>{d["id"]}</SHORT-NAME><LONG-NAME>{self.uid()}</LONG-NAME>'
         if k == "simple":
+            # PRECISION and DISPLAY-RADIX are display hints of the physical type
+            ptype = f'<PHYSICAL-TYPE BASE-DATA-TYPE="{d["pt"]}"/>'
+            if d.get("precision") is not None:
+                ptype = f'<PHYSICAL-TYPE BASE-DATA-TYPE="{d["pt"]}"><PRECISION>{d["precision"]}</PRECISION></PHYSICAL-TYPE>'
+            elif d.get("radix") is not None:
+                ptype = f'<PHYSICAL-TYPE BASE-DATA-TYPE="{d["pt"]}" DISPLAY-RADIX="{d["radix"]}"/>'
             self.add("DATA-OBJECT-PROPS", d["id"],
                      f'<DATA-OBJECT-PROP {head}{compu_xml(d["compu"], d["dct"]["bt"], d["pt"])}'
-                     f'{dct_xml(d["dct"])}<PHYSICAL-TYPE BASE-DATA-TYPE="{d["pt"]}"/></DATA-OBJECT-PROP>')
+                     f'{dct_xml(d["dct"])}{ptype}</DATA-OBJECT-PROP>')
         elif k == "dtc":
             def dtcs_xml(oid, dtcs):
                 return "".join(f'<DTC ID="{oid}.{n}"><SHORT-NAME>{n}</SHORT-NAME><TROUBLE-CODE>{c}</TROUBLE-CODE>'
